@@ -13,6 +13,10 @@ Correspondence (local steps, model evaluated inside Coq):
   * Welch statistic / Satterthwaite df for means from public means, stddev, unweighted counts;
   * overlap-corrected statistic for MR columns from public column proportions and the
     selected / valid overlap counts computed from the respondent-level survey by the harness;
+    overlap ROUTING: the overlap-corrected test applies only when the COLUMNS are MR, so MR x CAT
+    responses that also carry the `overlap` / `valid_overlap` measures of the rows MR go through
+    the ordinary two-proportion model of the first item (overlap measures on rows only / columns
+    only / both are all generated, distribution key overlap_measures_on=...);
   * index sets from the implementation's reported p / t matrices, alpha parsing and
     only_larger flag: pairwise_indices(_alt), pairwise_means_indices(_alt);
   * the legacy path (pairwise_significance_tests[c].t_stats) from the displayed proportions,
@@ -63,10 +67,15 @@ def gen_case(rng, k):
     weighted = rng.random() < 0.7
     squared = False
     numvars = []
+    row_overlaps = False
     if stream == "cols":
-        rowv = gen.make_cat(rng, "rowv", n_valid=rng.randint(1, 4)) if rng.random() < 0.8 \
-            else gen.make_mr(rng, "rowv", n_items=rng.randint(1, 3))
+        rowv = gen.make_cat(rng, "rowv", n_valid=rng.randint(1, 4)) if rng.random() < 0.7 \
+            else gen.make_mr(rng, "rowv", n_items=rng.randint(1, 4))
         colv = gen.make_cat(rng, "colv", n_valid=rng.randint(1, 5))
+        # overlap routing: an MR on the ROWS may carry overlap / valid_overlap measures as well; the
+        # categorical columns cannot overlap, so the ordinary two-proportion test (this stream's
+        # model) still is the property's formula
+        row_overlaps = rowv.kind == "mr" and rng.random() < 0.65
         squared = rng.random() < (0.6 if weighted else 0.1)
     elif stream == "means":
         rowv = gen.make_cat(rng, "rowv", n_valid=rng.randint(1, 3))
@@ -92,6 +101,8 @@ def gen_case(rng, k):
         resp = gen.cube_response(sv, aliases)
     if squared:
         V.add_squared_weights(resp, sv, aliases)
+    if row_overlaps:
+        V.add_overlaps(resp, sv, aliases, weighted and rng.random() < 0.6, about="rowv")
     ov_weighted = False
     SN = None
     if stream == "overlap":
@@ -113,6 +124,9 @@ def gen_case(rng, k):
         if d:
             transforms["rows_dimension"] = d
     return {"k": k, "stream": stream, "row_kind": rowv.kind, "col_kind": colv.kind,
+            "overlap_measures": ("rows_only(MR x CAT)" if row_overlaps else
+                                 "none" if stream != "overlap" else
+                                 "both(MR x MR)" if rowv.kind == "mr" else "columns_only(CAT x MR)"),
             "weighted": weighted, "squared": squared, "ov_weighted": ov_weighted,
             "response": resp, "transforms": transforms or None, "aval": aval, "olval": olv,
             "SN": SN}
@@ -850,8 +864,10 @@ def _oracles(case, io, fails, rep):
 # ------------------------------------------------------------------------------------
 
 def _replayable(case):
-    return {k: case[k] for k in ("k", "stream", "row_kind", "col_kind", "weighted", "squared",
-                                 "ov_weighted", "response", "transforms", "aval", "olval", "SN")}
+    d = {k: case[k] for k in ("k", "stream", "row_kind", "col_kind", "weighted", "squared",
+                              "ov_weighted", "response", "transforms", "aval", "olval", "SN")}
+    d["overlap_measures"] = case.get("overlap_measures", "none")
+    return d
 
 
 def check_cases(cases, rep, tag="cases"):
@@ -887,7 +903,7 @@ def check_cases(cases, rep, tag="cases"):
 def run(tier, seed):
     rep = core.Report(PID, tier, seed)
     ob = core.obligations_gate(rep, PID)
-    n_cases = 220 if tier == "quick" else 4000
+    n_cases = 240 if tier == "quick" else 4400
     rng = random.Random(seed)
     cases = [gen_case(rng, k) for k in range(n_cases)]
     fails, ios, coq_s, nterms = check_cases(cases, rep)
@@ -899,6 +915,7 @@ def run(tier, seed):
         rep.dist("weighted" if case["weighted"] else "unweighted")
         if case["squared"]:
             rep.dist("squared_weights")
+        rep.dist("overlap_measures_on=" + case.get("overlap_measures", "none"))
         tr = case["transforms"] or {}
         rep.dist("column_display_transform" if "columns_dimension" in tr else "no_column_display_transform")
         rep.dist("alpha=" + case["aval"].split()[0].strip("("))
@@ -923,7 +940,9 @@ def run(tier, seed):
         "cases from random.Random(seed): CAT|MR x CAT column tests (weighted / unweighted, with and without "
         "the squared-weight measure, subtotal and difference insertions on rows and columns, every displayed "
         "column - base or subtotal - as the selected one), CAT x CAT means (mean + stddev measures), CAT|MR x MR "
-        "with overlap / valid_overlap measures (weighted or not), CAT x MR without overlaps; alpha spelled as "
+        "with overlap / valid_overlap measures (weighted or not), CAT x MR without overlaps, MR x CAT whose response "
+        "ALSO carries the overlap measures of the rows MR (overlap routing: measures on rows only / columns only / "
+        "both, counted as overlap_measures_on=...; the categorical columns keep the two-proportion test); alpha spelled as "
         "absent/falsy/float/[a]/[a,b]/[a,b,extra] plus a malformed stream; only_larger absent/false/true/other; "
         "60% with column order/hide transforms, 25% with row ones; non-trivial = at least one finite non-zero "
         "statistic compared; distinct by content hash")
